@@ -192,6 +192,18 @@ impl ConsumerGroup {
         
         // Add each entry to pending list
         for entry in &entries {
+            // An entry that is already pending (the group was set back with SETID) changes hands:
+            // it leaves the previous owner's list and count before it is entered for the new one
+            if let Some(previous) = pending.remove_entry(&entry.id) {
+                let mut consumers = self.consumers.write().unwrap();
+                if let Some(old_owner) = consumers.get_mut(&previous.consumer) {
+                    old_owner.pending_count = old_owner.pending_count.saturating_sub(1);
+                }
+                drop(consumers);
+                let mut total = self.total_pending.lock().unwrap();
+                *total = total.saturating_sub(1);
+            }
+            
             let pending_entry = PendingEntry {
                 id: entry.id,
                 consumer: consumer.to_string(),
